@@ -757,6 +757,10 @@ pub fn explore(ctx: &Ctx, nm: &Names, alpha: &[SOp], max_depth: usize, cfg: &Cfg
             out.caps.push(format!("wall-clock budget reached after completing depth {}", out.depth));
             break;
         }
+        if rss_gb() > rss_cap_gb() {
+            out.caps.push(format!("resident-memory cap {} GiB reached after completing depth {}", rss_cap_gb(), out.depth));
+            break;
+        }
         if ctx.vio_count.load(std::sync::atomic::Ordering::Relaxed) > 0 {
             out.caps.push(format!("stopped after depth {} because violations were found (breadth-first: they are shortest ones)", out.depth));
             break;
